@@ -283,6 +283,7 @@ debruijn = { path = "/repo", features = ["verif_hooks"] }
 boomphf = "0.6"
 bit-set = "0.5.1"
 smallvec = "1"
+serde_json = "1"
 
 [workspace]
 
